@@ -22,3 +22,16 @@ for t, k in combos():
                                functions=['asn_encode*/%s on %s' % (k, t)],
                                inputs='value of %s + %s' % (t, {'MODE_CBFAIL': 'callback failure index -1..8', 'MODE_BUFFER': 'buffer size 0..max+1',
                                                                'MODE_NEWBUF': 'allocation failure index -1..6', 'MODE_ILLFORMED': 'values outside the constraints'}[mode])))
+
+# encodings whose size crosses the initial 16-octet capacity of asn_encode_to_new_buffer
+for k in ('der', 'oer'):
+    other = {'der': '_oer|_uper|_aper', 'oer': '_uper|_aper'}[k]
+    HARNESSES.append(typed(H, 'c07_newbuf_T_Oct16_%s' % k, 'typed/enc_contract.c', 'T_Oct16', k,
+                           defines=['-DMODE_NEWBUF', '-DSYNTAX=' + ATS[k][0], '-DSYNTAX_IS=%d' % ATS[k][1]],
+                           exclude=EXM['MODE_NEWBUF'] + '|' + other, alloc=True,
+                           functions=['asn_encode_to_new_buffer/%s on T-Oct16 (encoding size 13..18 around the initial capacity 16)' % k],
+                           inputs='OCTET STRING of 12..16 symbolic octets, allocation failure index -1..6'))
+    HARNESSES.append(typed(H, 'c07_buffer_T_Oct16_%s' % k, 'typed/enc_contract.c', 'T_Oct16', k, tiers=('thorough',),
+                           defines=['-DMODE_BUFFER', '-DSYNTAX=' + ATS[k][0], '-DSYNTAX_IS=%d' % ATS[k][1]],
+                           exclude=EXM['MODE_BUFFER'] + '|' + other,
+                           functions=['asn_encode_to_buffer/%s on T-Oct16' % k], inputs='OCTET STRING of 12..16 symbolic octets, buffer size 0..21'))
